@@ -147,9 +147,39 @@ func runMemdb(c *Case, out *RunOut, viol func(oracle, finger, detail string)) {
 		return false
 	}
 	sequential := len(cc.Prog) == 1
+	// Slices handed out by Get, Find and iterators are read by their holder
+	// after the call has returned (no lock is held then): their bytes must
+	// not change until the table is Reset, or a reader running concurrently
+	// with that change sees a mixture that was never stored.
+	type heldSlice struct {
+		s, want []byte
+		epoch   int
+		what    string
+	}
+	resetEpoch := 0
+	hold := func(list *[]heldSlice, s []byte, what string) {
+		if len(s) == 0 {
+			return
+		}
+		if len(*list) >= 12 {
+			*list = (*list)[1:]
+		}
+		*list = append(*list, heldSlice{s: s, want: append([]byte(nil), s...), epoch: resetEpoch, what: what})
+	}
+	verify := func(list *[]heldSlice) {
+		for _, h := range *list {
+			if h.epoch == resetEpoch && !bytes.Equal(h.s, h.want) {
+				viol("memdb", "memdb:value-unstable", fmt.Sprintf("the slice returned by %s changed under its holder from %s to %s without a Reset", h.what, descVal(true, h.want), descVal(true, h.s)))
+				*list = nil
+				return
+			}
+		}
+	}
 	var wg simrt.WaitGroup
 	run := func(pi int, prog []COp) {
 		defer wg.Done()
+		var helds []heldSlice
+		defer verify(&helds)
 		iters := map[int]iterator.Iterator{}
 		lastKey := map[int][]byte{}
 		lastDir := map[int]int{}
@@ -158,6 +188,7 @@ func runMemdb(c *Case, out *RunOut, viol func(oracle, finger, detail string)) {
 				return
 			}
 			op := &prog[i]
+			verify(&helds)
 			tick++
 			cl := tick
 			enter()
@@ -178,7 +209,9 @@ func runMemdb(c *Case, out *RunOut, viol func(oracle, finger, detail string)) {
 						err = nil
 					}
 				case "reset":
+					resetEpoch++
 					db.Reset()
+					resetEpoch++
 				}
 				if err != nil {
 					viol("memdb", "memdb:write-error", fmt.Sprintf("%s(%q) returned %v", op.K, []byte(op.Key), err))
@@ -206,6 +239,8 @@ func runMemdb(c *Case, out *RunOut, viol func(oracle, finger, detail string)) {
 				}
 				tick++
 				rt := tick
+				hold(&helds, val, op.K)
+				hold(&helds, rkey, op.K)
 				switch op.K {
 				case "get":
 					if !legal(op.Key, cl, rt, found, val) {
@@ -343,6 +378,8 @@ func runMemdb(c *Case, out *RunOut, viol func(oracle, finger, detail string)) {
 					}
 					k := append([]byte(nil), it.Key()...)
 					v := it.Value()
+					hold(&helds, it.Key(), "iterator Key")
+					hold(&helds, v, "iterator Value")
 					if op.HasS && bytes.Compare(k, op.Start) < 0 || op.HasL && bytes.Compare(k, op.Limit) >= 0 {
 						viol("memdb", "memdb:iter-range", fmt.Sprintf("iterator yielded %q outside its range", k))
 					}
